@@ -170,6 +170,11 @@ def _run(case, cfg, w):
             def cb(*args):
                 w.rec.add('cb', tag=tag, args=args)
                 cb_log.append((tag, list(args)))
+                if cfg.get('cb_pause') and w.mode == 'thread':
+                    # a slow callback; the client handles every message in
+                    # a thread of its own, so a repeated ACK is processed
+                    # while this one is still running
+                    w.kernel.sleep(w.choices.pick('app', PAUSES, 'cbpause'))
                 maybe_raise()
         return cb
 
